@@ -491,7 +491,7 @@ func runC10(a Args) Result {
 		tag := fmt.Sprintf("s%d-w%d-%s", a.Seed, a.Worker, variant)
 		var engRef *eng.Engine
 		res := run.Exec(run.Config{Seed: seed, Steps: a.Steps, Profile: gen.ProfileFor("C10"), Genesis: variant, Monitors: []eng.Monitor{rec}, Rep: rep, Raw: true,
-			Bootstrap: true, SeedTag: tag, Intercept: gf.intercept,
+			Bootstrap: true, Whale: true, SeedTag: tag, Intercept: gf.intercept,
 			OnEngine: func(e *eng.Engine) {
 				engRef = e
 				e.OnBlockCommitted = func(e *eng.Engine, hash []byte) {
